@@ -273,6 +273,8 @@ CONSTANTS HMax,      \* Singles: stored version sets are the subsets of 1 .. HMa
           NRandom,   \* number of randomly drawn cases of the full product space
           BuildMax,  \* generating machine: at most this many elements per change
           BuildIds,  \* generating machine: element ids used
+          WithFamilies, \* the small static families (Houses, Failing, Faulty, Optioned, IdTables) are part of StaticCases;
+                     \* FALSE in configs that do not need them (TLC evaluates every constant definition at startup)
           StaticInit \* model checking starts from the static families and NRandom random draws (TRUE) or only from
                      \* the generating machine (FALSE); lets the two halves run as separate TLC processes
 
@@ -361,13 +363,13 @@ Fill(ch, j, n, pick) ==       \* pick[j] = <<id, v>> pattern for cell j; second 
 Picks == { [j \in 1 .. 9 |-> <<1, 3>>], [j \in 1 .. 9 |-> <<3, 2>>], [j \in 1 .. 9 |-> <<3, 3>>],
            [j \in 1 .. 9 |-> <<1 + 2 * (j % 2), 3>>], [j \in 1 .. 9 |-> <<1, 1 + (j % 4)>>],
            [j \in 1 .. 9 |-> <<1 + (j % 3), 2 + (j % 2)>>], [j \in 1 .. 9 |-> <<2, 2>>] }
-Houses ==
+Houses == IF ~WithFamilies THEN {} ELSE
   {[ign |-> ign, nile |-> FALSE, opt |-> o, idp |-> ip, hist |-> WorldHist, ch |-> Fill(NoChange, 1, n, p)] :
       n \in {1, 2}, p \in Picks, ign \in BOOLEAN, o \in {NoOpt, [NoOpt EXCEPT !.inc = "on", !.thr = TRUE, !.cf = "none"]},
       ip \in {"base", "zero", "zero3"}}
 
 \* --- Failing: datasource errors other than not-found, alone and next to missing / fine elements ---------------
-Failing ==
+Failing == IF ~WithFamilies THEN {} ELSE
   {[ign |-> ign, nile |-> FALSE, opt |-> NoOpt, idp |-> "base", hist |-> World2Hist,
     ch |-> AddEl(AddEl(NoChange, CellList[a][1], CellList[a][2], e1[1], e1[2]), CellList[b][1], CellList[b][2], e2[1], e2[2])] :
       a \in {1, 4, 5, 7}, b \in {4, 6, 7, 9}, e1 \in {<<1, 2>>, <<2, 3>>}, e2 \in {<<1, 3>>, <<3, 2>>, <<2, 1>>}, ign \in BOOLEAN}
@@ -382,7 +384,7 @@ FaultyHist ==
     FailHist("way", 1, <<3, 1, 2>>, 300), NotFoundHist("way", 2), MkHist("way", 3, <<1, 5, 2>>, 400),
     FailHist("relation", 1, <<3, 1, 2>>, 500), NotFoundHist("relation", 2), MkHist("relation", 3, <<1, 5, 2>>, 600)>>
 FaultyShapes == {<<1, 3>>, <<1, 1>>, <<2, 3>>, <<3, 2>>}
-Faulty ==
+Faulty == IF ~WithFamilies THEN {} ELSE
   {[ign |-> ign, nile |-> FALSE, opt |-> NoOpt, idp |-> "base", hist |-> FaultyHist,
     ch |-> AddEl(NoChange, s, k, e[1], e[2])] : s \in UpdateSecs, k \in KindSet, e \in FaultyShapes, ign \in BOOLEAN}
   \cup
@@ -392,7 +394,7 @@ Faulty ==
 
 \* --- Optioned: every option set x one modified/deleted element that lacks / has its predecessor ----------------
 \* (<<1, 2>> history without earlier version, <<2, 3>> no history at all, <<1, 3>> predecessor present)
-Optioned ==
+Optioned == IF ~WithFamilies THEN {} ELSE
   {[ign |-> ign, nile |-> FALSE, opt |-> o, idp |-> "base", hist |-> WorldHist,
     ch |-> AddEl(NoChange, s, k, e[1], e[2])] :
       o \in OptSets, s \in UpdateSecs, k \in KindSet, e \in {<<1, 2>>, <<2, 3>>, <<1, 3>>}, ign \in BOOLEAN}
@@ -400,7 +402,7 @@ Optioned ==
 \* --- IdTables: concrete id 0 / a large id / negative ids for each kind, as first and as later element -----------
 \* two modified/deleted elements in every pair of update cells (also the same cell) over the id tables; version 3 has
 \* a predecessor for ids 1 and 3 and none for id 2 in WorldHist
-IdTables ==
+IdTables == IF ~WithFamilies THEN {} ELSE
   {[ign |-> pi[2], nile |-> FALSE, opt |-> NoOpt, idp |-> pi[1], hist |-> WorldHist,
     ch |-> AddEl(AddEl(NoChange, CellList[ab[1]][1], CellList[ab[1]][2], i1, 3), CellList[ab[2]][1], CellList[ab[2]][2], i2, 3)] :
       ab \in {x \in (4 .. 9) \X (4 .. 9) : x[1] <= x[2]}, i1 \in 1 .. 3, i2 \in 1 .. 3,
